@@ -659,4 +659,52 @@ def specAmbiguous (ε : Rat) (r : Roi) (xc yc : Option (List Int)) (pre : Option
     | some p => near ε r p
     | none => false) || (ins.any id && ins.any not)
 
+/-! ## Units and zero point of a numeric axis
+
+Changing the units / zero point of a numeric attribute (`v ↦ a·v + b`, `a > 0`) moves the drawn region
+and the data alike; the selection must not change (`Props/C09: selection_scale_equivariant`).  The
+driver uses the same maps to evaluate the boundary band of inexact paths in coordinates normalised to
+the region's own extent (a band relative to the local scale). -/
+
+/-- `v ↦ a·v + b` on the axis `ax` of a plotted point. -/
+def Pt.rescale (ax : Ori) (a b : Rat) (p : Pt) : Pt :=
+  match ax with
+  | .x => ⟨a * p.x + b, p.y⟩
+  | .y => ⟨p.x, a * p.y + b⟩
+
+def Val.rescale (a b : Rat) : Val → Val
+  | .num (some v) => .num (some (a * v + b))
+  | v => v
+
+/-- The data element with its `ax` attribute in the new units (labels and NaN are untouched). -/
+def Elem.rescale (ax : Ori) (a b : Rat) (e : Elem) : Elem :=
+  match ax with
+  | .x => ⟨e.x.rescale a b, e.y⟩
+  | .y => ⟨e.x, e.y.rescale a b⟩
+
+/-- The region drawn over the rescaled axis (for the axis-aligned classes, `Roi.axisAligned`: a
+rotated rectangle / ellipse or a circle is not mapped to a region of the same class by rescaling one
+axis — a circle on a rescaled axis is the unrotated ellipse `rx = ry`). -/
+def Roi.rescale (ax : Ori) (a b : Rat) : Roi → Roi
+  | .range ori lo hi => if ori = ax then .range ori (a * lo + b) (a * hi + b) else .range ori lo hi
+  | .rect xmin xmax ymin ymax c s =>
+    match ax with
+    | .x => .rect (a * xmin + b) (a * xmax + b) ymin ymax c s
+    | .y => .rect xmin xmax (a * ymin + b) (a * ymax + b) c s
+  | .ellipse xc yc rx ry c s =>
+    match ax with
+    | .x => .ellipse (a * xc + b) yc (a * rx) ry c s
+    | .y => .ellipse xc (a * yc + b) rx (a * ry) c s
+  | .poly vs => .poly (vs.map (Pt.rescale ax a b))
+  | .circle xc yc r => .circle xc yc r
+  | .categorical ls => .categorical ls
+
+/-- Classes closed under rescaling one axis: ranges, polygons, categorical regions, and rectangles /
+ellipses with `θ ≡ 0 (mod π)`. -/
+def Roi.axisAligned : Roi → Bool
+  | .rect _ _ _ _ c s => decide (s = 0) && decide (c * c = 1)
+  | .ellipse _ _ _ _ c s => decide (s = 0) && decide (c * c = 1)
+  | .circle _ _ _ => false
+  | _ => true
+
 end GlueVerif.C09
